@@ -277,6 +277,9 @@ def run_requester(initial, more, channel, lenreq, in_on_subscribe=()):
 def correspond(ctx, corr, model_ok):
     corr.oracle_failures.extend(credit_behind_request_oracle())
     corr.count('credit granted while the fragmented request is partly written', 20)
+    from harness.props import c20
+    corr.oracle_failures.extend(c20.credit_oracle())
+    corr.count('Rx adapters: configured limit = credit requested from the peer (both sides of streams and channels)', 36)
     rng = ctx.rng
     items = []
     kinds = ['gen', 'agen', 'rx4', 'rx3']
@@ -395,6 +398,9 @@ def search(ctx, budget_s):
 def replay(obj):
     if 'credit_case' in (obj.get('case') or {}):
         return bool(credit_behind_request_oracle())
+    if 'rx_case' in (obj.get('case') or {}):
+        from harness.props import c20
+        return bool(c20.oracle(c20.run_case(obj['case']['rx_case'])))
     case = obj['case']
     k = case['kind']
     if k == 'source':
